@@ -137,7 +137,7 @@ func runC10(c *ShardCtx) {
 		if c.Thorough() {
 			cn = 4
 		}
-		inputs = crossInputs
+		inputs = crossInputsSmall
 		ok := runCross(c, &idx, &crossSpec{maxSize: cn, each: func(g *peg.Grammar, lr bool) {
 			var gx []core.Gen
 			for m := 0; m < 4; m++ {
@@ -147,17 +147,7 @@ func runC10(c *ShardCtx) {
 				}
 				gx = append(gx, x)
 			}
-			scripts := crossPredScripts(g)
-			blocks := g.Blocks()
-			for k, b := range blocks {
-				s := map[int]*rtapi.Block{}
-				for _, b2 := range blocks {
-					s[b2.ID] = &rtapi.Block{Ops: rtapi.OpShallow | rtapi.OpCloner | rtapi.OpGlobal}
-				}
-				s[b.ID].Err = "e" + itoa(b.ID)
-				s[b.ID].Panic = k % 3
-				scripts = append(scripts, s)
-			}
+			scripts := crossFaultScripts(g)
 			diffAll(g, gx, []rtapi.RunOpts{{MaxExpr: 600, Filename: "f", InitState: true}, {MaxExpr: 600, NoRecover: true}}, scripts)
 		}})
 		inputs = inputs0
